@@ -323,6 +323,12 @@ func realMain() int {
 		wd := filepath.Join(scratch, fmt.Sprintf("work-%d-%d", w, wdSeq.Add(1)))
 		os.MkdirAll(wd, 0o755)
 		timeout := time.Duration(tc.BudgetS*float64(time.Second)) + 150*time.Second
+		for _, e := range extraEnv {
+			if strings.HasPrefix(e, "VERIF_REPLAY=") {
+				// a replay may have to re-run the worker session that led to the violation (thorough: ten minutes)
+				timeout = 25 * time.Minute
+			}
+		}
 		args := fmt.Sprintf("ulimit -v 25165824; exec %q -test.run '^TestSim$' -test.cpu %d -test.count 1 -test.timeout %ds", bin, cpuOf(extraEnv, cpuFlag), int(timeout.Seconds()))
 		c := exec.Command("sh", "-c", args)
 		c.Dir = wd
